@@ -10,6 +10,7 @@ pub mod c05;
 pub mod c06;
 pub mod c07;
 pub mod c08;
+pub mod c09;
 pub mod c11;
 pub mod c16;
 pub mod c19;
@@ -17,7 +18,7 @@ pub mod common;
 pub mod c20;
 
 pub fn implemented(id: &str) -> bool {
-    matches!(id, "C01" | "C02" | "C03" | "C04" | "C05" | "C06" | "C07" | "C08" | "C11" | "C16" | "C19" | "C20")
+    matches!(id, "C01" | "C02" | "C03" | "C04" | "C05" | "C06" | "C07" | "C08" | "C09" | "C11" | "C16" | "C19" | "C20")
 }
 
 pub fn run(id: &str, ctx: &mut Ctx) {
@@ -30,6 +31,7 @@ pub fn run(id: &str, ctx: &mut Ctx) {
         "C06" => c06::run(ctx),
         "C07" => c07::run(ctx),
         "C08" => c08::run(ctx),
+        "C09" => c09::run(ctx),
         "C11" => c11::run(ctx),
         "C16" => c16::run(ctx),
         "C19" => c19::run(ctx),
